@@ -5,6 +5,7 @@ import DadiVerif.Generated.Phi1D
 import DadiVerif.Lemmas.Theory
 import DadiVerif.Lemmas.Theory2
 import DadiVerif.Generated.Phi1DReal
+import DadiVerif.Lemmas.Demog1D
 /-!
 # C01 — one-population scheme: exact discrete moment laws (the provable core of the convergence property)
 
@@ -316,6 +317,88 @@ theorem C01_theory_neutral_limit : type_of% @theory_neutral_limit := @theory_neu
 theorem C01_theory_genic_large_negative : type_of% @theory_genic_large_negative := @theory_genic_large_negative
 
 end TheoryStationary
+
+/-! ### The library's one-population models (round 6)
+`Generated/Demog1D.lean` holds, for every one-population model function of `dadi/Demographics1D.py` and `dadi/DFE/DemogSelModels.py`,
+the `Integration.one_pop` calls it makes (the translator refuses a call that is not unconditional); `Model/Demog1D.lean` turns a
+parameter vector into the size history and the history into the heterozygosity of the density handed to the sampler (the driver op
+`c01.het`, compared with the real models by the harness). -/
+section Library
+open Demog1D Gen.Demog1D
+
+/-- **the models integrate the history their documentation states, for every parameter vector**: one `one_pop` call per epoch, in
+    order, with the documented (size, length) pair — whatever the values (a size equal to 1 or to the previous size, a zero length) -/
+theorem C01_models_histories (nu T nuB nuF TB TF F : ℚ) :
+    models.map (·.name) = ["snm_1d", "two_epoch", "growth", "bottlegrowth_1d", "three_epoch", "three_epoch_inbreeding",
+                           "equil", "two_epoch_sel", "three_epoch_sel", "growth_sel", "bottlegrowth_1d_sel"]
+    ∧ (lookup "snm_1d").bind (history · []) = some []
+    ∧ (lookup "two_epoch").bind (history · [nu, T]) = some [(nu, T)]
+    ∧ (lookup "three_epoch").bind (history · [nuB, nuF, TB, TF]) = some [(nuB, TB), (nuF, TF)]
+    ∧ (lookup "three_epoch_inbreeding").bind (history · [nuB, nuF, TB, TF, F]) = some [(nuB, TB), (nuF, TF)]
+    ∧ (lookup "equil").bind (history · [0]) = some []
+    ∧ (lookup "two_epoch_sel").bind (history · [nu, T, 0]) = some [(nu, T)]
+    ∧ (lookup "three_epoch_sel").bind (history · [nuB, nuF, TB, TF, 0]) = some [(nuB, TB), (nuF, TF)]
+    ∧ ((lookup "growth").bind (calls · [nu, T])).map (·.map fun c => (c.T, c.nu, c.gamma)) = some [(T, .inr "nu_func", 0)]
+    ∧ ((lookup "bottlegrowth_1d").bind (calls · [nuB, nuF, T])).map (·.map fun c => (c.T, c.nu, c.gamma)) = some [(T, .inr "nu_func", 0)]
+    ∧ ((lookup "growth_sel").bind (calls · [nu, T, F])).map (·.map fun c => (c.T, c.nu, c.gamma)) = some [(T, .inr "nu_func", F)]
+    ∧ ((lookup "bottlegrowth_1d_sel").bind (calls · [nuB, nuF, T, F])).map (·.map fun c => (c.T, c.nu, c.gamma)) = some [(T, .inr "nu_func", F)] := by
+  refine ⟨by decide, ?_, ?_, ?_, ?_, ?_, ?_, ?_, ?_, ?_, ?_, ?_⟩ <;>
+    simp [lookup, models, history, calls, callOf, argVal]
+
+/-- the time step of a neutral one-population epoch (generated `_compute_dt`, no migration, no selection) is 4·ν·timescale_factor -/
+theorem C01_dt_neutral : type_of% @computeDt_neutral := @computeDt_neutral
+
+/-- **the time steps of an epoch cover it exactly**: the lengths `while current_t < T: this_dt = min(dt, T − current_t)` takes add up
+    to T, each is positive and at most dt — T time units are integrated, whatever the size -/
+theorem C01_epoch_steps_cover (T dt : ℚ) (hT : 0 ≤ T) (hdt : 0 < dt) :
+    (stepList T dt).sum = T ∧ ∀ d ∈ stepList T dt, 0 < d ∧ d ≤ dt :=
+  ⟨stepList_sum T dt hT hdt, stepList_pos T dt hT hdt⟩
+
+/-- the closed form the driver evaluates for an epoch is the step-by-step recursion of `C01_het_step` ∘ `C01_inject_het` -/
+theorem C01_het_epoch_closed : type_of% @hetEpochClosed_eq := @hetEpochClosed_eq
+
+/-- **only an epoch at its own equilibrium is a no-op**: steps of positive length (at least one) leave the heterozygosity unchanged
+    iff it already is the stationary value b/κ of the epoch -/
+theorem C01_epoch_noop_iff : type_of% @hetEpoch_noop_iff := @hetEpoch_noop_iff
+
+theorem hetHistory_append (tf b : ℚ) (ep : ℚ × ℚ) : ∀ (h : List (ℚ × ℚ)) (H0 H1 : ℚ), hetHistory tf b h H0 = .ok H1 →
+    hetHistory tf b (h ++ [ep]) H0 = hetOnePop tf b ep H1 := by
+  intro h
+  induction h with
+  | nil =>
+    intro H0 H1 h1
+    simp only [hetHistory] at h1
+    injection h1 with h1; subst h1
+    simp only [List.nil_append, hetHistory]
+    cases hetOnePop tf b ep H0 <;> rfl
+  | cons e es ih =>
+    intro H0 H1 h1
+    simp only [List.cons_append, hetHistory] at h1 ⊢
+    cases hr : hetOnePop tf b e H0 with
+    | ok H' => rw [hr] at h1; simp only [] at h1 ⊢; exact ih H' H1 h1
+    | raises w => rw [hr] at h1; simp only [] at h1; cases h1
+    | outside => rw [hr] at h1; simp only [] at h1; cases h1
+
+/-- **the last epoch of a history matters unless the population is at that epoch's equilibrium**: appending an epoch (ν > 0, T > 0) to
+    any history changes the heterozygosity H₁ reached so far — for ν = 1 as for any other size — except when H₁ = b·ν exactly.  In
+    particular the recovery epoch of `three_epoch` at ν_F = 1 after a bottleneck cannot be skipped. -/
+theorem C01_last_epoch_matters (tf b : ℚ) (htf : 0 < tf) (h : List (ℚ × ℚ)) (nu T : ℚ) (hnu : 0 < nu) (hT : 0 < T)
+    (H0 H1 : ℚ) (h1 : hetHistory tf b h H0 = .ok H1) :
+    ∃ H2, hetHistory tf b (h ++ [(nu, T)]) H0 = .ok H2 ∧ (H2 = H1 ↔ H1 = b * nu) := by
+  rw [hetHistory_append tf b (nu, T) h H0 H1 h1]
+  exact hetOnePop_noop_iff tf b nu T H1 htf hnu hT
+
+/-- non-vacuity: after the bottleneck epoch (ν = 1/2 for T = 1/2, one step with timescale_factor 1/4) the heterozygosity 3/8·… is not
+    the equilibrium value b·1 of the recovery epoch -/
+example : hetHistory (1/4) (1/2) [((1:ℚ)/2, (1:ℚ)/2)] (1/2) = .ok (3/8) ∧ (3/8 : ℚ) ≠ 1/2 * 1 := by
+  refine ⟨?_, by norm_num⟩
+  have hdt : Gen.Py.computeDt (1/4) (1/2) 0 0 (1/2) = some (1/2) := by
+    rw [computeDt_neutral (1/4) (1/2) (1/2) (by norm_num)]; norm_num
+  have hn : fullSteps (1/2) (1/2) = 1 := by decide +kernel
+  simp only [hetHistory, hetOnePop, hdt, hetEpochClosed, hn]
+  norm_num
+
+end Library
 
 /-- non-vacuity: a 4-point grid from 0 to 1 satisfies the hypotheses of `C01_het_step` -/
 example : GridOk #[0, 1/4, 1/2, 1] ∧ (#[0, 1/4, 1/2, (1:ℚ)]).getD 0 0 = 0 ∧ (#[0, 1/4, 1/2, (1:ℚ)]).getD 3 0 = 1 := by
